@@ -27,6 +27,7 @@ const (
 	parkAfter
 	parkLock
 	parkCond
+	parkWeak // a condition that is waived when nothing else can run
 )
 
 const (
@@ -114,6 +115,7 @@ type Sim struct {
 	nEvents int
 	start   time.Time
 	ranker  func(key, value any) (int64, bool)
+	onStep  func()
 
 	// counters
 	Switches   int
@@ -145,6 +147,10 @@ func New(ch Chooser, cfg Config) *Sim {
 // SetRanker installs the function that gives map keys of non-basic type a
 // stable rank (used for the base order of instrumented map ranges).
 func (s *Sim) SetRanker(f func(key, value any) (int64, bool)) { s.ranker = f }
+
+// SetOnStep installs a function the scheduler calls at every quiescent point
+// (all tasks parked or blocked), before it picks the next task.
+func (s *Sim) SetOnStep(f func()) { s.onStep = f }
 
 // Elapsed is the simulated time since the simulator was created.
 func (s *Sim) Elapsed() time.Duration { return time.Since(s.start) }
@@ -394,6 +400,14 @@ func (s *Sim) WaitFor(site string, cond func() bool) {
 	}
 }
 
+// WaitWeak parks the calling task until cond holds or until no other task
+// can run (start delays are preferences, never a reason for a deadlock).
+func (s *Sim) WaitWeak(site string, cond func() bool) {
+	if t := s.self(); t != nil && !s.aborted.Load() {
+		s.park(t, site, parkWeak, cond, nil, "")
+	}
+}
+
 // Sleep lets d of simulated time pass for the calling task.
 func (s *Sim) Sleep(site string, d time.Duration) {
 	t := s.self()
@@ -516,8 +530,11 @@ func (s *Sim) Run() Result {
 		case <-s.notify:
 		default:
 		}
+		if s.onStep != nil {
+			s.onStep()
+		}
 		s.mu.Lock()
-		var cands []*Task
+		var cands, weak []*Task
 		pending := false
 		for _, t := range s.tasks {
 			if t.state != stFinished && !t.Daemon {
@@ -535,8 +552,16 @@ func (s *Sim) Run() Result {
 				if t.cond != nil && !t.cond() {
 					continue
 				}
+			case parkWeak:
+				if t.cond != nil && !t.cond() {
+					weak = append(weak, t)
+					continue
+				}
 			}
 			cands = append(cands, t)
+		}
+		if len(cands) == 0 {
+			cands = weak
 		}
 		if !pending {
 			s.mu.Unlock()
